@@ -36,7 +36,8 @@ variable {L : Char → Bool} {n : Nat} {tbl : List Str} {pp : PP}
 
 theorem petTail_spec (hpp : PPSpec L n tbl pp) {c c' : Node} {res : List Node}
     (hc : ok L n (c.tail.getD []) = true) (h : petTail pp c = some (c', res)) :
-    c'.text = c.text ∧ c'.children = c.children ∧ kidsOk L n res = true ∧ ok L n (c'.tail.getD []) = true ∧
+    c'.text = c.text ∧ c'.children = c.children ∧ c'.attrs = c.attrs ∧ kidsOk L n res = true ∧
+      ok L n (c'.tail.getD []) = true ∧
       flatT tbl 0 (c'.tail.getD []) ++ kidsFlat tbl res = flatT tbl 0 (c.tail.getD []) ∧
       ok L 0 (c'.tail.getD []) = true ∧ GoodKids L res := by
   unfold petTail at h
@@ -47,18 +48,19 @@ theorem petTail_spec (hpp : PPSpec L n tbl pp) {c c' : Node} {res : List Node}
       obtain ⟨h1, h2⟩ := h
       subst h1; subst h2
       obtain ⟨hsame, hk, hf, hfl, hc0, hg⟩ := hpp _ _ _ _ _ _ hc rfl hp
-      exact ⟨hsame.text rfl, hsame.kids, hk, hf, hfl, hc0, hg⟩
+      exact ⟨hsame.text rfl, hsame.kids, hsame.attrs, hk, hf, hfl, hc0, hg⟩
     · simp at h
   · rename_i hnp
     simp only [Option.some.injEq, Prod.mk.injEq] at h
     obtain ⟨h1, h2⟩ := h
     subst h1; subst h2
-    exact ⟨rfl, rfl, rfl, hc, by simp [kidsFlat_nil], ok0_of_not_processed hnp, fun r hr => (by cases hr)⟩
+    exact ⟨rfl, rfl, rfl, rfl, hc, by simp [kidsFlat_nil], ok0_of_not_processed hnp, fun r hr => (by cases hr)⟩
 
 theorem petText_spec (hpp : PPSpec L n tbl pp) {c c2 : Node} (hc : nodeOk L n c = true)
     (h : petText pp c = some c2) :
     c2.tail = c.tail ∧ nodeFlat tbl c2 = nodeFlat tbl c ∧ nodeOk L n c2 = true ∧
-      ok L 0 (c2.text.getD []) = true ∧ (kidsAtomOk L c.children = true → kidsAtomOk L c2.children = true) := by
+      ok L 0 (c2.text.getD []) = true ∧ (kidsAtomOk L c.children = true → kidsAtomOk L c2.children = true) ∧
+      c2.attrs = c.attrs := by
   have hc' := nodeOk_iff.1 hc
   unfold petText at h
   split at h
@@ -69,7 +71,7 @@ theorem petText_spec (hpp : PPSpec L n tbl pp) {c c2 : Node} (hc : nodeOk L n c 
       obtain ⟨hsame, hk, hf, hfl, hc0, hg⟩ := hpp _ _ _ _ _ _ hc'.1 rfl hp
       have hkids : c'.children = c.children := hsame.kids
       have htail : c'.tail = c.tail := hsame.tail rfl
-      refine ⟨htail, ?_, ?_, hc0, ?_⟩
+      refine ⟨htail, ?_, ?_, hc0, ?_, hsame.attrs⟩
       rotate_left 2
       · intro hka
         simp only [hkids]
@@ -85,7 +87,7 @@ theorem petText_spec (hpp : PPSpec L n tbl pp) {c c2 : Node} (hc : nodeOk L n c 
   · rename_i hnp
     simp only [Option.some.injEq] at h
     subst h
-    exact ⟨rfl, rfl, hc, ok0_of_not_processed hnp, fun h => h⟩
+    exact ⟨rfl, rfl, hc, ok0_of_not_processed hnp, fun h => h, rfl⟩
 
 theorem procKids_spec (hpp : PPSpec L n tbl pp) :
     ∀ (ns ns' : List Node), kidsOk L n ns = true → kidsAtomOk L ns = true → procKids pp ns = some ns' →
@@ -113,10 +115,10 @@ theorem procKids_spec (hpp : PPSpec L n tbl pp) :
         · rename_i r' h3
           simp only [Option.some.injEq] at h
           subst h
-          obtain ⟨t1, t2, t3, t4, t5, t6, t7⟩ := petTail_spec hpp hc.2.1 h1
+          obtain ⟨t1, t2, t2a, t3, t4, t5, t6, t7⟩ := petTail_spec hpp hc.2.1 h1
           have hc1 : nodeOk L n c1 = true := by
             rw [nodeOk_iff, t1, t2]; exact ⟨hc.1, t4, hc.2.2⟩
-          obtain ⟨u1, u2, u3, u4, u5⟩ := petText_spec hpp hc1 h2
+          obtain ⟨u1, u2, u3, u4, u5, u6⟩ := petText_spec hpp hc1 h2
           obtain ⟨v1, v2, v3⟩ := ih _ hk.2 hka.2 h3
           refine ⟨kidsOk_cons.2 ⟨u3, kidsOk_append.2 ⟨t3, v1⟩⟩, ?_, ?_⟩
           rotate_left
@@ -124,8 +126,8 @@ theorem procKids_spec (hpp : PPSpec L n tbl pp) :
               refine ⟨?_, ?_⟩
               · simp only [topClean, Bool.and_eq_true, u1]; exact ⟨u4, t6⟩
               · rw [atomOk_iff]
-                refine ⟨fun _ => u4, u5 ?_⟩
-                rw [t2]; exact (atomOk_iff.1 hka.1).2
+                refine ⟨fun _ => u4, by rw [u6, t2a]; exact (atomOk_iff.1 hka.1).2.1, u5 ?_⟩
+                rw [t2]; exact (atomOk_iff.1 hka.1).2.2
             intro x hx
             rcases List.mem_cons.1 hx with rfl | hx
             · exact hc2good
@@ -138,7 +140,7 @@ theorem procKids_spec (hpp : PPSpec L n tbl pp) :
           simp only [List.append_assoc]
 
 theorem procNode_spec (hpp : PPSpec L n tbl pp) : NestedSpec L n tbl (procNode pp) := by
-  intro nd nd' hok htail hna h
+  intro nd nd' hok htail hattrs hna h
   have hnd := nodeOk_iff.1 hok
   unfold procNode at h
   simp only [] at h
@@ -157,13 +159,13 @@ theorem procNode_spec (hpp : PPSpec L n tbl pp) : NestedSpec L n tbl (procNode p
       subst h
       have hn1 : nodeOk L n { nd with children := [] } = true := by
         rw [nodeOk_iff]; exact ⟨hnd.1, hnd.2.1, rfl⟩
-      obtain ⟨u1, u2, u3, u4, u5⟩ := petText_spec hpp hn1 h2
+      obtain ⟨u1, u2, u3, u4, u5, u6⟩ := petText_spec hpp hn1 h2
       obtain ⟨v1, v2, v3⟩ := procKids_spec hpp _ _ hnd.2.2 (kidsAtomOk_of_nonAtomic _ hna) h3
       have hn2 := nodeOk_iff.1 u3
       refine ⟨?_, by simpa [htail] using u1, ?_, u4, ?_⟩
       rotate_left 2
       · rw [atomOk_iff]
-        refine ⟨fun _ => u4, ?_⟩
+        refine ⟨fun _ => u4, by rw [u6]; exact hattrs, ?_⟩
         simp only [List.append_nil]
         exact kidsAtomOk_append.2 ⟨u5 rfl, kidsAtomOk_of_forall (fun r hr => (v3 r hr).2)⟩
       · have e : nodeFlat tbl n2 = flatT tbl 0 (nd.text.getD []) := by
